@@ -127,6 +127,8 @@ pub struct TableDrv<E: ElemT> {
     pub tabs: Vec<Option<Table<E>>>,
     pub hold: Vec<Box<dyn Any>>,
     pub w: usize,
+    /// never store two equal elements (which duplicate a lookup hits is layout-dependent)
+    pub nodup: bool,
 }
 
 pub fn dump_table<E: ElemT>(m: &Option<Table<E>>, w: usize) -> TState {
@@ -171,7 +173,7 @@ impl<E: ElemT> TableDrv<E> {
         for _ in 0..nt {
             tabs.push(None);
         }
-        TableDrv { tabs, hold: Vec::new(), w }
+        TableDrv { tabs, hold: Vec::new(), w, nodup: false }
     }
 
     pub fn states(&self) -> Vec<TState> {
@@ -200,6 +202,13 @@ impl<E: ElemT> TableDrv<E> {
         }
         tr.raw(&format!("{{\"op\":\"begin\",\"name\":\"{}\",\"t\":{},\"k\":{},\"n\":{}}}", ev.op, ev.t, ev.k, ev.n));
         tr.flush(); // the marker must survive a crash inside the call
+        if self.nodup && E::TRACKED && (ev.op == "t_insert_unique") {
+            let k = ev.k as u32;
+            let present = self.tabs[ev.t - 1].as_ref().map_or(false, |m| m.iter().any(|e| e.class() == k));
+            if present {
+                ev.op = "t_find".into();
+            }
+        }
         if !E::TRACKED {
             ev.v = 0;
             // elements without identity: never store two indistinguishable elements (the abstract
